@@ -160,8 +160,8 @@ TEXT["C02"] = dict(
 NA = {}
 
 TEXT["C06"] = dict(
-    text="Machine-checked Lean 4 theorems about a function-by-function model of MutableArchive: the hash table with deleted markers refines a finite map under the probe-chain invariant for every history of puts and deletes of any length on any table size (step_refines, history_reach, session_reach: add/replace/remove/flush are histories of table steps); an insertion fails only when no slot is free and then changes nothing (bounded probe loop is complete); new data and rewritten tables always land behind every existing block and behind the tables the header points to, so bytes of untouched files are never written (addCore_layout, flush_layout, read_write_disjoint). Tied to the code by replaying whole random and boundary histories through the model and comparing every hash slot, block entry and header position the implementation left on disk, plus a BTreeMap oracle after every close+reopen.",
-    note="Six genuine defects repaired in /repo (tables overrun appended data / V3-V4 unusable after flush; infinite loop on a full table and mutation before failure; FIX_KEY key and padding; rename of encrypted files; listfile substring match; compact from stale view inventing names). rename/compact are covered by the correspondence and the oracle, not by a theorem of their own; archives with (attributes) by the oracle only.",
+    text="Machine-checked Lean 4 theorems about a function-by-function model of MutableArchive: the hash table with deleted markers refines a finite map under the probe-chain invariant for every history of puts and deletes of any length on any table size (step_refines, history_reach, session_reach: add/replace/remove/flush and rename - plain and encrypted path, successful or failing half way - are histories of table steps: add_steps, remove_steps, rename_steps); an insertion fails only when no slot is free and then changes nothing (bounded probe loop is complete); new data and rewritten tables always land behind every existing block and behind the tables the header points to, so bytes of untouched files are never written (addCore_layout, flush_layout, read_write_disjoint). Tied to the code by replaying whole random and boundary histories through the model and comparing every hash slot, block entry and header position the implementation left on disk, plus a BTreeMap oracle after every close+reopen.",
+    note="Six genuine defects repaired in /repo (tables overrun appended data / V3-V4 unusable after flush; infinite loop on a full table and mutation before failure; FIX_KEY key and padding; rename of encrypted files; listfile substring match; compact from stale view inventing names). compact is covered by the correspondence and the oracle, not by a theorem of its own; archives with (attributes) by the oracle only.",
     technique="Lean 4 proof (refinement of open addressing with tombstones to a map by invariant + induction over histories; layout invariant) + whole-history differential correspondence on on-disk tables",
 )
 
